@@ -81,7 +81,25 @@ type zzMRoute struct {
 
 func (r *zzMRoute) RouteRule() api.RouteRule                   { return r.rule }
 func (r *zzMRoute) DirectResponseRule() api.DirectResponseRule { return nil }
-func (r *zzMRoute) RedirectRule() api.RedirectRule             { return nil }
+func (r *zzMRoute) RedirectRule() api.RedirectRule {
+	if zzRedirect != nil {
+		return zzRedirect
+	}
+	return nil
+}
+
+// zzRedirect, when set, makes the mock route a redirect route
+var zzRedirect *zzMRedirect
+
+type zzMRedirect struct {
+	scheme, host, path string
+	code               int
+}
+
+func (r *zzMRedirect) RedirectCode() int      { return r.code }
+func (r *zzMRedirect) RedirectPath() string   { return r.path }
+func (r *zzMRedirect) RedirectHost() string   { return r.host }
+func (r *zzMRedirect) RedirectScheme() string { return r.scheme }
 
 type zzMSnap struct {
 	types.ClusterSnapshot
@@ -485,7 +503,7 @@ func VerifC14_ProxyFilters() {
 	verif.Switches(0)
 	nf := 1 + verif.Choose("filters", verif.Param("pfilters", 2, 3))
 	special := verif.Choose("special", nf) // which filter gets the non-continue verdict
-	kind := verif.Choose("kind", 5)        // 0 continue, 1 stop+hijack, 2 termination, 3 re-match, 4 re-choose
+	kind := verif.Choose("kind", 6)        // 0 continue, 1 stop+hijack, 2 termination, 3 re-match, 4 re-choose, 5 hijack but continue verdict
 	// the route may allow retries, and the filter's own reply may carry a status the retry policy
 	// would retry if it came from an upstream (503) - it must still be the one and only response
 	retryOn := verif.Choose("route_retry_on", 2) == 1
@@ -519,6 +537,9 @@ func VerifC14_ProxyFilters() {
 				f.verdict = api.StreamFilterReMatchRoute
 			case 4:
 				f.verdict = api.StreamFilterReChooseHost
+			case 5:
+				// the filter answers the request itself and lets its phase go on
+				f.verdict, f.hijack, f.code = api.StreamFilterContinue, true, denyCode
 			}
 		}
 		phases = append(phases, ph)
@@ -542,6 +563,11 @@ func VerifC14_ProxyFilters() {
 	verif.Assume(done) // pool failures etc. are C03's subject; here the upstream answers if asked
 	effective := kind
 	switch effective {
+	case 5:
+		verif.Assert(pool.calls == 0, "a request answered by a filter was still sent upstream")
+		verif.Assert(sender.headers == 1, "the filter's local reply must reach the client exactly once")
+		verif.Assert(sf.calls == 1, "the local reply must pass the send filters once")
+		verif.Cover("hijack-continue")
 	case 1:
 		verif.Assert(pool.calls == 0, "a request answered by a filter was still sent upstream")
 		verif.Assert(sender.headers == 1, "the filter's local reply must reach the client exactly once")
@@ -566,6 +592,9 @@ func VerifC14_ProxyFilters() {
 			if phases[i] > phases[special] || (phases[i] == phases[special] && i > special) {
 				want = 0
 			}
+		}
+		if effective == 5 && phases[i] > phases[special] {
+			want = 0 // the rest of the filter's own phase still runs, later phases do not
 		}
 		if (effective == 3 || effective == 4) && i == special {
 			want = 2
